@@ -492,8 +492,11 @@ def check(pid, tier, seed):
                 cov["skipped_for_time_budget"] += js["skipped_budget"]
                 for k, v in js["class_counts"].items():
                     exstat["class_counts"][k] = exstat["class_counts"].get(k, 0) + v
-                if len(cov["samples"]) < 6:
-                    cov["samples"] += ["[%s] %s" % (ex["name"], s) for s in js["samples"][:2]]
+                # a few rendered cases per executor (not only of the first one)
+                if exstat.get("_nsamples", 0) < (2 if nexec > 2 else 3):
+                    take = js["samples"][:1] if nexec > 2 else js["samples"][:2]
+                    cov["samples"] += ["[%s] %s" % (ex["name"], s) for s in take]
+                    exstat["_nsamples"] = exstat.get("_nsamples", 0) + len(take)
                 hp = os.path.join(outdir, "worker-%d.hashes" % w)
                 if os.path.exists(hp):
                     b = open(hp, "rb").read()
@@ -544,6 +547,7 @@ def check(pid, tier, seed):
                 if st_ == 1 and coarse(key) not in seenf and not (key == "HANG" and not ex.get("hang_is_violation")):
                     seenf.add(coarse(key))
                     violations.append((ft, key, msg, ex["name"]))
+        exstat.pop("_nsamples", None)
         cov["executors"][ex["name"]] = exstat
         cov["evaluations"] += exstat["cases"]
         for k, v in exstat["class_counts"].items():
